@@ -176,7 +176,38 @@ func GenProgram(t *rapid.T, cfg GenCfg) Program {
 			if rapid.IntRange(0, 9).Draw(t, "unk") == 0 {
 				p.Ops = append(p.Ops, Op{K: "revert", Str: rapid.SampledFrom([]string{"volume-snap-nosuch.img", "nosuch", "volume-head-000.img"}).Draw(t, "unkname")})
 			} else {
-				p.Ops = append(p.Ops, Op{K: "revert", Sel: rapid.IntRange(0, 15).Draw(t, "sel")})
+				p.Ops = append(p.Ops, Op{K: "revert", Sel: rapid.IntRange(0, 15).Draw(t, "sel"), On: rapid.IntRange(0, 2).Draw(t, "orphan") == 0})
+			}
+		case "orphanseq":
+			// two snapshots, a revert to the older one (the newer one leaves the live
+			// chain, its files stay), possibly a grow and more writes, then a revert
+			// to the one left behind
+			a, b := fmt.Sprintf("s%d", len(names)), fmt.Sprintf("s%d", len(names)+1)
+			names = append(names, a, b)
+			p.Ops = append(p.Ops, genWrite(t, size), Op{K: "snap", Name: a, User: true}, genWrite(t, size), Op{K: "snap", Name: b, User: true})
+			nsnaps += 2
+			if rapid.Bool().Draw(t, "wbefore") {
+				p.Ops = append(p.Ops, genWrite(t, size))
+			}
+			p.Ops = append(p.Ops, Op{K: "revert", Name: a})
+			for k := rapid.IntRange(0, 3).Draw(t, "between"); k > 0; k-- {
+				switch rapid.IntRange(0, 3).Draw(t, "bk") {
+				case 0:
+					if cfg.W["resize"] > 0 {
+						size += rapid.IntRange(1, 16).Draw(t, "add")
+						p.Ops = append(p.Ops, Op{K: "resize", N: int64(size)})
+						continue
+					}
+					fallthrough
+				case 1:
+					p.Ops = append(p.Ops, Op{K: "reopen", On: rapid.Bool().Draw(t, "preload")})
+				default:
+					p.Ops = append(p.Ops, genWrite(t, size))
+				}
+			}
+			p.Ops = append(p.Ops, Op{K: "revert", Name: b}, Op{K: "read", Off: 0, Len: int64(size) * 8})
+			if rapid.Bool().Draw(t, "reopenafter") {
+				p.Ops = append(p.Ops, Op{K: "reopen", On: rapid.Bool().Draw(t, "preload")})
 			}
 		case "reopen":
 			p.Ops = append(p.Ops, Op{K: "reopen", On: rapid.Bool().Draw(t, "preload")})
